@@ -137,6 +137,22 @@ theorem rolled_back_push_keeps_endpoints (r : Registry) (h : r.WF) (a b : List P
     (he : e ∈ a) : e ∈ (((r.switch a b).switch b a).tick).managed :=
   Registry.switch_then_tick _ (Registry.switch_wf r h a b) b a e he
 
+/-! ## Policies mode -/
+
+/-- A policies push that is not answered 200 (document refused, or the proxy refusing the registration of
+    its endpoints) leaves `policies.yaml` and the policies serving new transactions as they were; an
+    accepted one makes both the pushed document. -/
+theorem policies_push_all_or_nothing (proxyRefuses : Bool) (st : PState) (p : PPayload) :
+    ((applyPolicies proxyRefuses st p).1 ≠ 200 → (applyPolicies proxyRefuses st p).2 = st) ∧
+    ((applyPolicies proxyRefuses st p).1 = 200 →
+      ∃ k, p = .label k ∧ (applyPolicies proxyRefuses st p).2 = ⟨k, k⟩) := by
+  cases p with
+  | invalid => exact ⟨fun _ => rfl, fun h => by cases h⟩
+  | label k =>
+    cases proxyRefuses with
+    | true => exact ⟨fun _ => rfl, fun h => by cases h⟩
+    | false => exact ⟨fun h => absurd rfl h, fun _ => ⟨k, rfl, rfl⟩⟩
+
 /-! ## Rejections before the first write (no hypothesis on environment or state) -/
 
 /-- A request that stops in the method / decode / no-data / backup / parse phase changes neither the
